@@ -459,6 +459,14 @@ func runInstance(ld *sym.Loaded, spec *Spec, rs *RunSpec, args []int64, known ma
 					if sp.Returns == "error" {
 						return ex.NondetError(sp.Input), true
 					}
+					if sp.Returns == "float-by-arg" {
+						// a parsed number: one symbolic value per distinct (concrete) text argument
+						return ex.FloatByArg(sp.Input, args[0]), true
+					}
+					if sp.Returns == "bool-nil" {
+						// (nondeterministic bool, nil error), a fresh bool per call
+						return ex.BoolNilPerCall(sp.Input), true
+					}
 					return ex.Input(sp.Input, "int", fn.Signature.Results().At(0).Type()), true
 				}
 			}
